@@ -61,7 +61,7 @@ class ClassRef:
 _SAFE_METHODS = {
     str: {'upper', 'lower', 'replace', 'join', 'strip', 'lstrip', 'rstrip', 'split', 'startswith', 'endswith',
           'format', 'count', 'title', 'capitalize', 'partition', 'rpartition', 'rsplit', 'isdigit', 'isalpha', 'islower', 'isupper',
-          'find', 'index', 'splitlines', 'translate', 'removeprefix', 'removesuffix'},
+          'find', 'index', 'splitlines', 'translate', 'removeprefix', 'removesuffix', 'isnumeric', 'isdecimal', 'isalnum', 'isspace'},
     dict: {'keys', 'values', 'items', 'get', 'copy'},
     list: {'copy', 'index', 'count'},
     tuple: {'index', 'count'},
